@@ -24,6 +24,7 @@ def run(rep):
     rep.guard(n6, rep, w)
     rep.guard(n8, rep, w, 'C15')
     rep.guard(n9, rep, w)
+    rep.guard(n10, rep, w)
     import c09
     rep.guard(c09.f5, rep, w)     # a fiber killed by a failed run is reported as finished by later snippets
     rep.guard(c09.f9, rep, w, 'C15')   # ... and never as new
@@ -490,3 +491,40 @@ def n9(rep, w, prop='C15'):
                 '%s writes thread-local state that no guard takes back (%s): what one call leaves there is seen by the next call - of any run, on any interpreter of the thread'
                 % (f.path, sorted(unscoped) or direct), f.loc())
     r.note('functions outside memory.rs that enter a thread-local: %d' % n)
+
+
+def n10(rep, w, prop='C15'):
+    """reset() throws every module away except the one it re-initialises - and the closures of the core classes (compiled at start-up, held by the
+    class store) live on across it. Closures do not keep their module alive (C01: every module stays registered until reset), so the core source
+    has to be compiled in the module reset() keeps: the start-up compilation names no module of its own (the default is that module) or names the
+    one reset() retains."""
+    r = rep.rule('N10', 'the core source is compiled in the module that reset() keeps (closures of the core classes outlive a reset)', floor=1)
+    rs = w.require_fn(VM + 'reset', prop)
+    kept = set()
+    for g in [rs] + [x for x in w.fns.values() if x.kind == 'Closure' and x.parent == rs.path]:
+        org = origins(g)
+        for _, t in g.calls():
+            for a in t['args']:
+                if op_place(a) is not None:
+                    kept |= set(g.operand_strings(org, a))
+                k = op_const(a)
+                if k is not None and 's' in k:
+                    kept.add(k['s'])
+    n = 0
+    for f in sorted(w.yarel.fns.values(), key=lambda x: x.path):
+        if 'class_store' not in f.path:
+            continue
+        org = None
+        for bi, t in f.calls():
+            if not (callee_name(t) or '').endswith('vm::interpret') or len(t['args']) < 3:
+                continue
+            n += 1
+            org = org or origins(f)
+            pl = op_place(t['args'][2])
+            none = any((s_.get('d') or {}).get('l') == (pl or {}).get('l') and s_.get('r', {}).get('rv') == 'agg' and s_['r'].get('v') == 'None' for s_ in f.blocks[bi]['s']) if pl else False
+            names = set(f.operand_strings(org, t['args'][2])) if pl is not None else set()
+            r.check(none or (names and names <= kept), '%s compiles the core source in the module reset() keeps' % f.path.replace('yarel::', ''),
+                    '%s compiles the core source in a module of its own (%s) while reset() keeps only %s: after a reset the core classes\' methods run with a module that has been freed'
+                    % (f.path, sorted(names), sorted(x for x in kept if 'main' in x) or sorted(kept)[:3]), f.loc(t.get('sp')))
+    if n == 0:
+        raise Broken(prop, 'anchor', 'the start-up compilation of the core source was not found in the class store')
